@@ -105,6 +105,9 @@ def _norm_name(n):
 def arg_name(term):
     """Name carried by an argument term: last field of a chain, or the parameter / variable name."""
     t = strip(term)
+    if t[0] == "phi":
+        names = {arg_name(x) for x in t[1]}
+        return names.pop() if len(names) == 1 else None
     if t[0] == "field":
         return t[2]
     if t[0] == "param":
